@@ -384,6 +384,26 @@ def classify(d, m):
     return "expansion"
 
 
+def group_of(label):
+    if label.startswith("corpus/"):
+        return "corpus"
+    if label.startswith("rand/"):
+        return "random_grammar"
+    if label.startswith("random/"):
+        return "random_matrix"
+    if label.startswith("e2e/"):
+        return "e2e"
+    return "deep" if "/deep/" in label else "matrix"
+
+
+def by_group(items):
+    out = {}
+    for it in items:
+        g = group_of(it.get("label", ""))
+        out[g] = out.get(g, 0) + 1
+    return out
+
+
 def judge(rec):
     """Oracle (i) on one record. Returns list of failure descriptions."""
     fails = []
@@ -437,59 +457,59 @@ def run(ctx, proofs):
     labels = []
     CH = 8000
     for lo in range(0, len(programs), CH):
-      recs = evaluate(ctx, HARNESS_BIN, MODEL_BIN, programs[lo:lo + CH])
-      for rec in recs:
-        labels.append(rec["label"])
-        f = judge(rec)
-        if f:
-            failing.append({"label": rec["label"], "input": rec["src"], "impl": f, "spec": "sugar-free output, functions with sugar rejected with an error, no panic"})
-        if "parse" in rec:
-            stats["parse_error"] += 1
-            if rec["label"] in rand_info:
-                rstats["parse_error"] += 1
-            continue
-        d, m, s = rec["impl"], rec["model"], rec["spec"]
-        if rec["roundtrip"] != d["PRE"]:
-            disagreements.append({"label": rec["label"], "what": "AST wire round trip", "impl": d["PRE"][:300], "model": rec["roundtrip"][:300]})
-        w = wf_violations(d["PRE"])
-        if w:
-            wf_fail.append({"label": rec["label"], "input": rec["src"], "what": "; ".join(w)})
-        if d["POST"] != m.get("POST") or (d["REP"] != m.get("REP") and d["POST"] != "panic"):
-            kind = classify(d, m)
-            diff_kinds[kind.split(":")[0]] = diff_kinds.get(kind.split(":")[0], 0) + 1
-            disagreements.append({"label": rec["label"], "input": rec["src"], "what": "desugared AST / reports: " + kind,
-                                  "impl": (d["POST"] + " " + d["REP"])[-600:], "model": (m.get("POST", "") + " " + m.get("REP", ""))[-600:]})
-        # (i') the specification agrees with the implementation on every accepted host definition
-        pre_defs = {n: t for k, n, t in split_defs(d["PRE"])}
-        post_defs = {n: t for k, n, t in split_defs(d["POST"])} if d["POST"] != "panic" else {}
-        spec_defs = {n: t for k, n, t in split_defs(s.get("POST", ""))}
-        for n in ("T", "g"):
-            if n in pre_defs:
-                sug = bool(has_sugar(pre_defs[n]))
-                kept = n in post_defs
-                stats[("templates" if n == "T" else "functions") + ("_kept" if kept else "_rejected")] += 1
-                if kept and sug:
-                    stats["host_kept_with_sugar_input"] += 1
+        recs = evaluate(ctx, HARNESS_BIN, MODEL_BIN, programs[lo:lo + CH])
+        for rec in recs:
+            labels.append(rec["label"])
+            f = judge(rec)
+            if f:
+                failing.append({"label": rec["label"], "input": rec["src"], "impl": f, "spec": "sugar-free output, functions with sugar rejected with an error, no panic"})
+            if "parse" in rec:
+                stats["parse_error"] += 1
                 if rec["label"] in rand_info:
-                    mode, feats = rand_info[rec["label"]]
-                    rstats[mode + (" kept" if kept else " rejected")] += 1
-                    for ft in feats:
-                        c = rfeat.setdefault(ft, [0, 0])
-                        c[0 if kept else 1] += 1
-                if n == "T":
-                    if kept and spec_defs.get(n) != post_defs[n]:
-                        spec_diff.append({"label": rec["label"], "input": rec["src"], "impl": post_defs[n][-500:],
-                                          "spec": (spec_defs.get(n) or "rejected")[-500:]})
-                    if not kept and n in spec_defs:
-                        spec_diff.append({"label": rec["label"], "input": rec["src"], "impl": "rejected: " + d["REP"][-300:],
-                                          "spec": spec_defs[n][-500:]})
-        for t in rep_msgs(d["REP"]):
-            kinds[t] = kinds.get(t, 0) + 1
-            if rec["label"] in rand_info:
-                rkinds[t] = rkinds.get(t, 0) + 1
-        nontrivial.add(hashlib.md5(repr((d["POST"] != "panic" and "T" in post_defs,
-                                         re.sub(r"@\d+:\d+:\d+|_\d+_\d+", "", post_defs.get("T", d["REP"]))[:4000])).encode()).digest())
-      del recs
+                    rstats["parse_error"] += 1
+                continue
+            d, m, s = rec["impl"], rec["model"], rec["spec"]
+            if rec["roundtrip"] != d["PRE"]:
+                disagreements.append({"label": rec["label"], "what": "AST wire round trip", "impl": d["PRE"][:300], "model": rec["roundtrip"][:300]})
+            w = wf_violations(d["PRE"])
+            if w:
+                wf_fail.append({"label": rec["label"], "input": rec["src"], "what": "; ".join(w)})
+            if d["POST"] != m.get("POST") or (d["REP"] != m.get("REP") and d["POST"] != "panic"):
+                kind = classify(d, m)
+                diff_kinds[kind.split(":")[0]] = diff_kinds.get(kind.split(":")[0], 0) + 1
+                disagreements.append({"label": rec["label"], "input": rec["src"], "what": "desugared AST / reports: " + kind,
+                                      "impl": (d["POST"] + " " + d["REP"])[-600:], "model": (m.get("POST", "") + " " + m.get("REP", ""))[-600:]})
+            # (i') the specification agrees with the implementation on every accepted host definition
+            pre_defs = {n: t for k, n, t in split_defs(d["PRE"])}
+            post_defs = {n: t for k, n, t in split_defs(d["POST"])} if d["POST"] != "panic" else {}
+            spec_defs = {n: t for k, n, t in split_defs(s.get("POST", ""))}
+            for n in ("T", "g"):
+                if n in pre_defs:
+                    sug = bool(has_sugar(pre_defs[n]))
+                    kept = n in post_defs
+                    stats[("templates" if n == "T" else "functions") + ("_kept" if kept else "_rejected")] += 1
+                    if kept and sug:
+                        stats["host_kept_with_sugar_input"] += 1
+                    if rec["label"] in rand_info:
+                        mode, feats = rand_info[rec["label"]]
+                        rstats[mode + (" kept" if kept else " rejected")] += 1
+                        for ft in feats:
+                            c = rfeat.setdefault(ft, [0, 0])
+                            c[0 if kept else 1] += 1
+                    if n == "T":
+                        if kept and spec_defs.get(n) != post_defs[n]:
+                            spec_diff.append({"label": rec["label"], "input": rec["src"], "impl": post_defs[n][-500:],
+                                              "spec": (spec_defs.get(n) or "rejected")[-500:]})
+                        if not kept and n in spec_defs:
+                            spec_diff.append({"label": rec["label"], "input": rec["src"], "impl": "rejected: " + d["REP"][-300:],
+                                              "spec": spec_defs[n][-500:]})
+            for t in rep_msgs(d["REP"]):
+                kinds[t] = kinds.get(t, 0) + 1
+                if rec["label"] in rand_info:
+                    rkinds[t] = rkinds.get(t, 0) + 1
+            nontrivial.add(hashlib.md5(repr((d["POST"] != "panic" and "T" in post_defs,
+                                             re.sub(r"@\d+:\d+:\d+|_\d+_\d+", "", post_defs.get("T", d["REP"]))[:4000])).encode()).digest())
+        del recs
 
     # a difference between the specified expansion and the implementation's output is a failing input of the
     # property itself ("inputs assigned in declaration order or by name, outputs read in declaration order")
@@ -574,6 +594,8 @@ def run(ctx, proofs):
             "report_messages_seen": len(rkinds),
         },
         "disagreement_kinds": diff_kinds,
+        "disagreements_by_group": by_group(disagreements),
+        "property_failures_by_group": by_group(failing),
         "input_distribution": stats,
         "report_messages_seen": len(kinds),
         "report_message_histogram": dict(sorted(kinds.items(), key=lambda x: -x[1])[:45]),
